@@ -5,16 +5,17 @@
 # after each.
 set -u
 cd /repo && git diff --quiet || { echo "/repo has uncommitted changes"; exit 2; }
-ok=0; miss=0
+ok=0; miss=0; inc=0
 for d in /verif/seeded/${1:-}*/; do
   name=$(basename "$d")
-  first=$(python3 -c "import json;m=json.load(open('$d/meta.json'));print(m['checks_run_against_it']['caught_by'][0])")
+  first=$(python3 -c "import json;m=json.load(open('$d/meta.json'));c=m['checks_run_against_it']['caught_by'];print(c[0] if c else m['property'])")
   git -C /repo apply "$d/patch.diff" || { echo "$name: PATCH DOES NOT APPLY"; miss=$((miss+1)); continue; }
   out=$(cd /verif && VERIF_NO_REGRESS=1 VERIF_OUT=/tmp/seedsweep ./check $first quick 2>/dev/null | grep -E "^(VIOLATION|OK|INCONCLUSIVE)" | head -1)
   git -C /repo checkout -- .
   case "$out" in
     VIOLATION*) ok=$((ok+1)); echo "$name: caught by $first" ;;
+    INCONCLUSIVE*) inc=$((inc+1)); echo "$name: INCONCLUSIVE in $first ($out)" ;;
     *) miss=$((miss+1)); echo "$name: NOT CAUGHT by $first ($out)" ;;
   esac
 done
-echo "SWEEP caught=$ok missed=$miss"
+echo "SWEEP caught=$ok inconclusive=$inc missed=$miss"
